@@ -429,6 +429,22 @@ def cases_key_pairs():
                 yield {"steps": steps, "render_lens": [200], "rng": 0}
 
 
+def cases_refusals():
+    """finite grid: a transfer that is under way, one continuation that must be refused (skipped / repeated / earlier /
+    far block, wrong payload length), then the correct next blocks: the refusal must not have cost the transfer its state"""
+    bads = [{"rel": "skip"}, {"rel": "repeat"}, {"rel": "earlier"}, {"rel": "absolute", "num": 5}] + [{"rel": "next", "lenkind": lk} for lk in ("short", "long", "empty", "half", "double")]
+    for bad in bads:
+        for szx in (0, 2):
+            for method in ("PUT", "POST", "FETCH"):
+                for pre in (1, 2):
+                    base = {"client": 0, "res": 0, "query": "", "method": method, "szx": szx, "idle": 0.0, "kind": "block1", "plen": 9, "lenkind": "exact", "num": 1}
+                    steps = [dict(base, rel="restart", final=False)] + [dict(base, rel="next", final=False) for _ in range(pre - 1)]
+                    steps.append(dict(base, final=False, **bad))
+                    steps.append(dict(base, rel="next", final=False))
+                    steps.append(dict(base, rel="next", final=True))
+                    yield {"steps": steps, "render_lens": [40], "rng": 0}
+
+
 def selftest():
     import aiocoap.blockwise as bw
 
@@ -464,6 +480,7 @@ def build(tier):
         [
             Sub("block2_grid", run_case, cases=cases_block2_grid, exhaustive=True, note="14 rendering lengths x 6 first-request sizes x 5 follow-up sizes x 5 block numbers"),
             Sub("key_pairs", run_case, cases=cases_key_pairs, exhaustive=True, note="two interleaved transfers whose keys differ in one query entry / query order / method / resource / endpoint"),
+            Sub("refusals", run_case, cases=cases_refusals, exhaustive=True, note="a refused continuation (wrong number or length) in the middle of a transfer, then the correct next blocks"),
             Sub("slow_transfers", run_case, cases=cases_slow_transfers, exhaustive=True, note="2-6 blocks x gap 1/50/60/92 s x with/without a second client's abandoned transfer x szx 0/2, then Block2 read-back at the same pace"),
             Sub("histories", run_case, strategy=_case, budget={"quick": 3000, "thorough": 250000}, max_wall={"quick": 55, "thorough": 3600}),
         ],
